@@ -73,6 +73,13 @@ def strategy(tier):
             else:
                 v = S.dy(draw, -16, 16)
                 x.append(float(min(max(v, lb[j]), ub[j])))
+        if m > 0 and draw(st.integers(0, 3)) == 0:
+            # an exactly feasible linearisation point: move the right-hand sides so that c(x) == 0.0 in every row
+            # (dyadic data: exact for affine and quadratic rows; rows with a sine term keep a rounding-size residual)
+            from vf.spec import Ref
+
+            c0 = Ref(spec).c(np.array(x))
+            spec["b"] = (np.array(spec["b"], dtype=float) + c0).tolist()
         return {
             "spec": spec,
             "x": x,
@@ -189,6 +196,8 @@ def check(case):
     labels.append(f"active:{int(act.sum())}/{n}")
     if nonlinear_c:
         labels.append("nonlinear_rows_c!=0")
+    if m > 0 and not np.any(c):
+        labels.append("c==0_exactly")
 
     problem = make_user_problem(spec)
     results = {}
